@@ -1,7 +1,10 @@
 /-
-  C15 — array methods behave like an ideal list under every sequence of operations.
+  C15 — array methods behave like an ideal list.
   `absArr h a` is the list of values the array `a` denotes in the heap `h`; each native is shown
-  to commute with it and to return what `Spec.ListArr` returns.  Heaps are assumed well-formed
+  to commute with it and to return what `Spec.ListArr` returns.  The SEQUENCE theorems
+  (`ops_refine_list`, `ops_refine_lists`) range over push / pop / popfirst only; length, contains,
+  sort and index reads have one-step theorems; index WRITES (`a[i] = v`) and calls nested in
+  each other's arguments have no theorem in this file.  Heaps are assumed well-formed
   (`Heap.WF`: cell ids stored in containers are allocated), which the natives preserve, and the
   receiver must be an allocated array (`a < h.arrs.size`).
 -/
@@ -342,6 +345,21 @@ example : (⟨#[], #[#[]], #[]⟩ : Heap).WF ∧ 0 < (⟨#[], #[#[]], #[]⟩ : H
   refine ⟨⟨?_, ?_⟩, by simp⟩
   · intro a c hc
     rcases a with _ | a <;> simp [Heap.arr] at hc
+  · intro o k c hc
+    simp [Heap.obj] at hc
+
+/-- non-vacuity with contents (for `sort_numbers`, `pop_refines`, …): a well-formed heap whose
+    allocated array 0 holds the numbers 1, 0 -/
+example : (⟨#[.num F64.one, .num F64.zero], #[#[0, 1]], #[]⟩ : Heap).WF ∧
+    0 < (⟨#[.num F64.one, .num F64.zero], #[#[0, 1]], #[]⟩ : Heap).arrs.size ∧
+    (absArr ⟨#[.num F64.one, .num F64.zero], #[#[0, 1]], #[]⟩ 0).all (fun v => v.kind == .num) = true ∧
+    absArr ⟨#[.num F64.one, .num F64.zero], #[#[0, 1]], #[]⟩ 0 ≠ [] := by
+  refine ⟨⟨?_, ?_⟩, by decide, by decide, by decide⟩
+  · intro a c hc
+    rcases a with _ | a
+    · have : c = 0 ∨ c = 1 := by simpa [Heap.arr] using hc
+      rcases this with rfl | rfl <;> decide
+    · simp [Heap.arr] at hc
   · intro o k c hc
     simp [Heap.obj] at hc
 
